@@ -15,6 +15,12 @@ CHECKS = {
  "C09": ("complete enumeration of the finite inclusion table (49 source pairs x 2 orders x 3 selection kinds x 3 depths x strategy configurations) on the real resolver against the inclusion formula and the resolver call set",
          "The whole table the property quantifies over is enumerated, so within the fixed schema the verdict is complete, not bounded.",
          "Fixed universe schema and data graph; absent-and-undefaulted variables are outside the table.", "5.9"),
+ "C06": ("exhaustive fault enumeration: every resolver invocation of every bounded request (documents within 1 mutation of the bases x 2 data graphs x strategies) made to fail in turn with 3 failure kinds (thorough: all pairs), on the real resolver, against a reference executor",
+         "For every request in the bound and every call of its reference call log the failing run is compared with the reference: error-path multiset, null at the failing position, all other positions unchanged.",
+         "Faults keyed by (node, field); documents whose reference merges response keys are skipped (invocation multiplicity is unspecified); finding C06-F1 is matched only when stripping the 'fragment at' segment makes paths equal.", "5.6"),
+ "C10": ("exhaustive single-defect injection (10 defect kinds) at every selection-set site of every document within 1 (thorough 2) mutations of the bases, under RS/AS/FS, on the real resolver; oracle = error present and naming the offender, resolver call/argument log, siblings equal to the defect-free reference",
+         "Every (document, site, defect) triple within the bound is executed; the verdict covers all container kinds reachable in the universe schema (object, interface-typed, union member, query/mutation root).",
+         "Fixed universe schema; defective selections are aliased dfx.", "5.10"),
 }
 
 NOT_YET = {}
